@@ -28,7 +28,7 @@ theorem conn_sections :
     Facts.doWriteOrder = ["genFrame", "write", "window"] ∧
     Facts.readLoopShape = ["open", "loop", "close", "reclaim"] ∧
     Facts.dispatchDefersRecovery = true ∧ Facts.closeOpcodeTakesClosePath = true ∧
-    Facts.readLoopNeverWaitsForWriteLock = true := by decide
+    Facts.readLoopNeverWaitsForWriteLock = true ∧ Facts.deadlineSettersLockFree = true := by decide
 
 /-- C09 (handshake clause): `UpgradeFromConn`, `NewClient` and `NewClientFromConn` run the inner
 handshake procedure and, when it reports an error, close the transport before returning that error.
